@@ -4,13 +4,13 @@ go 1.26
 
 require (
 	github.com/anishathalye/porcupine v1.3.0
+	github.com/ipfs/go-log/v2 v2.5.1
 	github.com/ipld/go-storethehash v0.0.0
 	github.com/multiformats/go-multihash v0.2.1
 )
 
 require (
 	github.com/ipfs/go-cid v0.3.2 // indirect
-	github.com/ipfs/go-log/v2 v2.5.1 // indirect
 	github.com/klauspost/cpuid/v2 v2.0.9 // indirect
 	github.com/mattn/go-isatty v0.0.14 // indirect
 	github.com/minio/sha256-simd v1.0.0 // indirect
